@@ -62,7 +62,7 @@ struct Plan {
 pub struct C07;
 
 fn gen_op(r: &mut Rng, node_kind: bool) -> Op {
-    let kinds: &[&str] = if node_kind { &["send", "send", "send", "link", "unlink", "monitor", "demonitor", "rpc"] } else { &["send", "send", "send_name", "send_name", "link", "unlink", "monitor", "demonitor"] };
+    let kinds: &[&str] = if node_kind { &["send", "send", "send", "link", "unlink", "monitor", "demonitor", "rpc", "bad_send"] } else { &["send", "send", "send_name", "send_name", "link", "unlink", "monitor", "demonitor", "bad_send"] };
     Op { kind: (*r.pick(kinds)).to_string(), seed: r.next_u64(), size: *r.pick(&[0u32, 1, 4, 12, 40]), pause_ms: *r.pick(&[0u32, 0, 0, 1, 7]) }
 }
 
@@ -131,7 +131,7 @@ impl Scenario for C07 {
             components_stubbed: &["TCP (SimNet)", "EPMD (stub)", "remote node (handshake acceptor + independent frame, header and term reader)"],
             assumptions: &["payloads come from the sub-space with an unambiguous denotation (DESIGN 2.4); node-local identifier forms are not generated"],
             fault_prefixes: &["fault.", "net."],
-            expected_probes: &["probe.c07.frame_checked_passthrough", "probe.c07.frame_checked_header", "probe.c07.interleaved_tasks", "probe.c07.op_failed_after_fault", "probe.c07.unlink_id_above_2_63", "probe.c07.asymmetric_flag_offer", "probe.c07.node_local_identifier", "probe.c07.nothing_written_after_failed_handshake"],
+            expected_probes: &["probe.c07.frame_checked_passthrough", "probe.c07.frame_checked_header", "probe.c07.interleaved_tasks", "probe.c07.op_failed_after_fault", "probe.c07.unlink_id_above_2_63", "probe.c07.asymmetric_flag_offer", "probe.c07.node_local_identifier", "probe.c07.unencodable_rejected_cleanly", "probe.c07.nothing_written_after_failed_handshake"],
         }
     }
 }
@@ -147,6 +147,8 @@ struct Want {
     payload: Option<Val>,
     ok: bool,
     err: String,
+    /// the operation cannot be encoded and must fail without writing anything
+    expect_err: bool,
 }
 
 fn peer_pid_for(task: usize, idx: usize, seed: u64) -> Val {
@@ -160,6 +162,16 @@ fn local_pid_for(task: usize) -> Val {
 fn tagged_payload(task: usize, idx: usize, op: &Op) -> Val {
     let mut r = Rng::new(op.seed);
     Val::tuple(vec![Val::int(task as i128), Val::int(idx as i128), wire::gen_val(&mut r, op.size)])
+}
+
+/// A payload no frame can carry: an atom longer than 65535 bytes, or (header mode) more
+/// distinct atoms than a header has positions.
+fn unencodable_payload(seed: u64, header_mode: bool) -> Val {
+    if header_mode && seed % 2 == 0 {
+        Val::list((0..300).map(|i| Val::Atom(format!("too_many_{}", i))).collect())
+    } else {
+        Val::tuple(vec![Val::atom("big"), Val::Atom("x".repeat(70_000))])
+    }
 }
 
 fn unlink_id(seed: u64) -> u64 {
@@ -251,7 +263,7 @@ async fn scenario(w: &Arc<World>, p: &Plan) {
                     let to = peer_pid_for(ti, ix, op.seed);
                     let from = local_pid_for(ti);
                     let (to_e, from_e) = (to_pid(&to).unwrap(), to_pid(&from).unwrap());
-                    let mut want = Want { task: ti, idx: ix, kind: op.kind.clone(), control: Vec::new(), payload: None, ok: false, err: String::new() };
+                    let mut want = Want { task: ti, idx: ix, kind: op.kind.clone(), control: Vec::new(), payload: None, ok: false, err: String::new(), expect_err: false };
                     let res: Result<(), String> = match op.kind.as_str() {
                         "link" => {
                             want.control = vec![Some(Val::int(1)), Some(from.clone()), Some(to.clone())];
@@ -273,6 +285,11 @@ async fn scenario(w: &Arc<World>, p: &Plan) {
                             let rf = wire::gen_ref(&mut rr, Some(SUT_NAME));
                             want.control = vec![Some(Val::int(20)), Some(from.clone()), Some(to.clone()), Some(rf.clone())];
                             node.demonitor(&from_e, &to_e, &to_ref(&rf).unwrap()).await.map_err(|e| e.to_string())
+                        }
+                        "bad_send" => {
+                            want.expect_err = true;
+                            want.control = vec![Some(Val::int(2)), Some(Val::atom("")), Some(to.clone())];
+                            node.send(&to_e, from_val(&unencodable_payload(op.seed, false))).await.map_err(|e| e.to_string())
                         }
                         "rpc" => {
                             // {6, ReplyPid, '', rex} + {ReplyPid, {call, m, f, [Task, Idx], user}}
@@ -342,7 +359,7 @@ async fn scenario(w: &Arc<World>, p: &Plan) {
             }
             let from = local_pid_for(0);
             let (to_e, from_e) = (to_pid(&to).unwrap(), to_pid(&from).unwrap());
-            let mut want = Want { task: 0, idx: ix, kind: op.kind.clone(), control: Vec::new(), payload: None, ok: false, err: String::new() };
+            let mut want = Want { task: 0, idx: ix, kind: op.kind.clone(), control: Vec::new(), payload: None, ok: false, err: String::new(), expect_err: false };
             let res = match op.kind.as_str() {
                 "link" => {
                     want.control = vec![Some(Val::int(1)), Some(from.clone()), Some(to.clone())];
@@ -364,6 +381,11 @@ async fn scenario(w: &Arc<World>, p: &Plan) {
                     let tag = if op.kind == "monitor" { 19 } else { 20 };
                     want.control = vec![Some(Val::int(tag)), Some(from.clone()), Some(to.clone()), Some(rf.clone())];
                     if op.kind == "monitor" { conn.monitor(&from_e, &to_e, &to_ref(&rf).unwrap()).await } else { conn.demonitor(&from_e, &to_e, &to_ref(&rf).unwrap()).await }
+                }
+                "bad_send" => {
+                    want.expect_err = true;
+                    want.control = vec![Some(Val::int(2)), Some(Val::atom("")), Some(to.clone())];
+                    conn.send_message(from_e.clone(), to_e.clone(), from_val(&unencodable_payload(op.seed, p.header_mode))).await
                 }
                 "send_name" => {
                     let name = wire::gen_atom(&mut rr);
@@ -570,6 +592,9 @@ fn evaluate(w: &Arc<World>, p: &Plan, stream: &[u8], wants: &[Want]) {
                 Err(e) => last_err = e,
             }
         }
+        if want.expect_err && want.ok {
+            w.violation("unencodable-accepted", format!("task {} op {}: a payload that no frame can carry was sent", want.task, want.idx));
+        }
         match (want.ok, found) {
             (true, Some(i)) => {
                 used[i] = true;
@@ -592,6 +617,9 @@ fn evaluate(w: &Arc<World>, p: &Plan, stream: &[u8], wants: &[Want]) {
                 if !faulted {
                     w.violation("failed-op-wrote", format!("task {} op {} ({}) returned Err({}) but its frame is on the wire", want.task, want.idx, want.kind, want.err));
                 }
+            }
+            (false, None) if want.expect_err => {
+                w.stat("probe.c07.unencodable_rejected_cleanly");
             }
             (false, None) => {
                 if faulted {
